@@ -485,7 +485,7 @@ Proof.
   repeat go_step; discriminate.
 Qed.
 
-(* forward execution of a parser inside a hypothesis [H : ... = Ok _] *)
+(* forward execution of a parser inside a premise [H : ... = Ok _] *)
 Ltac inv_step H :=
   match type of H with
   | Err _ = Ok _ => discriminate H
@@ -508,70 +508,474 @@ Ltac inv_mbap H :=
 Ltac inv_done H :=
   apply Ok_inj in H; try (apply pair_equal_spec in H; destruct H as [_ H]); subst.
 
-(* ---- TCP ---- *)
+Ltac snd_fin k fc :=
+  split; [lia|]; split;
+  [match goal with Hn : nth_error _ k = Some ?b |- _ => replace fc with b by lia; exact Hn end|].
+Ltac snd_lim := (split; [reflexivity|]); unfold fld; cbn [Nat.sub] in *; lia.
+
+(* ---- TCP: frame long enough, function code of the frame, decoded fields = frame fields ---- *)
 Lemma read_req_tcp_sound fc d tid r : parse_read_req_tcp fc d = Ok (tid, r) ->
+  (12 <= slen d)%nat /\ nth_error (vis d) 7 = Some fc /\
   exists u st, r = RRead fc u st (fld d 10) /\ 1 <= fld d 10 <= 125.
 Proof.
   unfold parse_read_req_tcp, in_range. intros H. inv_mbap H. repeat inv_step H.
-  inv_done H. do 2 eexists. split; [reflexivity|]. unfold fld. cbn [Nat.sub] in *. lia.
+  inv_done H. snd_fin 7%nat fc. do 2 eexists. snd_lim.
 Qed.
 Lemma wcoil_req_tcp_sound d tid r : parse_wcoil_req_tcp d = Ok (tid, r) ->
+  (12 <= slen d)%nat /\ nth_error (vis d) 7 = Some 5 /\
   exists u a st, r = RWCoil u a st /\ fld d 10 = (if st then 0xFF00 else 0).
 Proof.
   unfold parse_wcoil_req_tcp. intros H. inv_mbap H. repeat inv_step H.
-  inv_done H. do 3 eexists. split; [reflexivity|]. unfold fld.
+  inv_done H. snd_fin 7%nat 5. do 3 eexists. split; [reflexivity|]. unfold fld.
   match goal with |- _ = (if ?c then _ else _) => destruct c eqn:? end; cbn [Nat.sub] in *; lia.
 Qed.
+Lemma wreg_req_tcp_sound d tid r : parse_wreg_req_tcp d = Ok (tid, r) ->
+  (12 <= slen d)%nat /\ nth_error (vis d) 7 = Some 6 /\ exists u a d0 d1, r = RWReg u a d0 d1.
+Proof.
+  unfold parse_wreg_req_tcp. intros H. inv_mbap H. repeat inv_step H.
+  inv_done H. snd_fin 7%nat 6. do 4 eexists. reflexivity.
+Qed.
 Lemma wcoils_req_tcp_sound d tid r : parse_wcoils_req_tcp d = Ok (tid, r) ->
+  (13 <= slen d)%nat /\ nth_error (vis d) 7 = Some 15 /\
   exists u st data, r = RWCoils u st (fld d 10) data /\ 1 <= fld d 10 <= 1968.
 Proof.
   unfold parse_wcoils_req_tcp, in_range. intros H. inv_mbap H. repeat inv_step H;
-  inv_done H; do 3 eexists; (split; [reflexivity|]); unfold fld; cbn [Nat.sub] in *; lia.
+  inv_done H; snd_fin 7%nat 15; do 3 eexists; snd_lim.
 Qed.
 Lemma wregs_req_tcp_sound d tid r : parse_wregs_req_tcp d = Ok (tid, r) ->
+  (13 <= slen d)%nat /\ nth_error (vis d) 7 = Some 16 /\
   exists u st data, r = RWRegs u st (fld d 10) data /\ 1 <= fld d 10 <= 123.
 Proof.
   unfold parse_wregs_req_tcp, in_range. intros H. inv_mbap H. repeat inv_step H;
-  inv_done H; do 3 eexists; (split; [reflexivity|]); unfold fld; cbn [Nat.sub] in *; lia.
+  inv_done H; snd_fin 7%nat 16; do 3 eexists; snd_lim.
+Qed.
+Lemma srvid_req_tcp_sound d tid r : parse_srvid_req_tcp d = Ok (tid, r) ->
+  (8 <= slen d)%nat /\ nth_error (vis d) 7 = Some 17 /\ exists u, r = RSrvId u.
+Proof.
+  unfold parse_srvid_req_tcp. intros H. inv_mbap H. repeat inv_step H.
+  inv_done H. snd_fin 7%nat 17. eexists. reflexivity.
 Qed.
 Lemma rw_req_tcp_sound d tid r : parse_rw_req_tcp d = Ok (tid, r) ->
+  (17 <= slen d)%nat /\ nth_error (vis d) 7 = Some 23 /\
   exists u rs ws data, r = RRW u rs (fld d 10) ws (fld d 14) data /\
     1 <= fld d 10 <= 125 /\ 1 <= fld d 14 <= 121.
 Proof.
   unfold parse_rw_req_tcp, in_range. intros H. inv_mbap H. repeat inv_step H;
-  inv_done H; do 4 eexists; (split; [reflexivity|]); unfold fld; cbn [Nat.sub] in *; lia.
+  inv_done H; snd_fin 7%nat 23; do 4 eexists; snd_lim.
 Qed.
 
 (* ---- RTU ---- *)
 Lemma read_req_rtu_sound fc d r : parse_read_req_rtu fc d = Ok r ->
+  (6 <= slen d)%nat /\ nth_error (vis d) 1 = Some fc /\
   exists u st, r = RRead fc u st (fld d 4) /\ 1 <= fld d 4 <= 125.
 Proof.
   unfold parse_read_req_rtu, in_range. intros H. repeat inv_step H.
-  inv_done H. do 2 eexists. split; [reflexivity|]. unfold fld. cbn [Nat.sub] in *. lia.
+  inv_done H. snd_fin 1%nat fc. do 2 eexists. snd_lim.
 Qed.
 Lemma wcoil_req_rtu_sound d r : parse_wcoil_req_rtu d = Ok r ->
+  (6 <= slen d)%nat /\ nth_error (vis d) 1 = Some 5 /\
   exists u a st, r = RWCoil u a st /\ fld d 4 = (if st then 0xFF00 else 0).
 Proof.
   unfold parse_wcoil_req_rtu. intros H. repeat inv_step H.
-  inv_done H. do 3 eexists. split; [reflexivity|]. unfold fld.
+  inv_done H. snd_fin 1%nat 5. do 3 eexists. split; [reflexivity|]. unfold fld.
   match goal with |- _ = (if ?c then _ else _) => destruct c eqn:? end; cbn [Nat.sub] in *; lia.
 Qed.
+Lemma wreg_req_rtu_sound d r : parse_wreg_req_rtu d = Ok r ->
+  (6 <= slen d)%nat /\ nth_error (vis d) 1 = Some 6 /\ exists u a d0 d1, r = RWReg u a d0 d1.
+Proof.
+  unfold parse_wreg_req_rtu. intros H. repeat inv_step H.
+  inv_done H. snd_fin 1%nat 6. do 4 eexists. reflexivity.
+Qed.
 Lemma wcoils_req_rtu_sound d r : parse_wcoils_req_rtu d = Ok r ->
+  (7 <= slen d)%nat /\ nth_error (vis d) 1 = Some 15 /\
   exists u st data, r = RWCoils u st (fld d 4) data /\ 1 <= fld d 4 <= 1968.
 Proof.
   unfold parse_wcoils_req_rtu, in_range. intros H. repeat inv_step H;
-  inv_done H; do 3 eexists; (split; [reflexivity|]); unfold fld; cbn [Nat.sub] in *; lia.
+  inv_done H; snd_fin 1%nat 15; do 3 eexists; snd_lim.
 Qed.
 Lemma wregs_req_rtu_sound d r : parse_wregs_req_rtu d = Ok r ->
+  (8 <= slen d)%nat /\ nth_error (vis d) 1 = Some 16 /\
   exists u st data, r = RWRegs u st (fld d 4) data /\ 1 <= fld d 4 <= 123.
 Proof.
   unfold parse_wregs_req_rtu, in_range. intros H. repeat inv_step H;
-  inv_done H; do 3 eexists; (split; [reflexivity|]); unfold fld; cbn [Nat.sub] in *; lia.
+  inv_done H; snd_fin 1%nat 16; do 3 eexists; snd_lim.
+Qed.
+Lemma srvid_req_rtu_sound d r : parse_srvid_req_rtu d = Ok r ->
+  (2 <= slen d)%nat /\ nth_error (vis d) 1 = Some 17 /\ exists u, r = RSrvId u.
+Proof.
+  unfold parse_srvid_req_rtu. intros H. repeat inv_step H;
+  inv_done H; snd_fin 1%nat 17; eexists; reflexivity.
 Qed.
 Lemma rw_req_rtu_sound d r : parse_rw_req_rtu d = Ok r ->
+  (12 <= slen d)%nat /\ nth_error (vis d) 1 = Some 23 /\
   exists u rs ws data, r = RRW u rs (fld d 4) ws (fld d 8) data /\
     1 <= fld d 4 <= 125 /\ 1 <= fld d 8 <= 121.
 Proof.
   unfold parse_rw_req_rtu, in_range. intros H. repeat inv_step H;
-  inv_done H; do 4 eexists; (split; [reflexivity|]); unfold fld; cbn [Nat.sub] in *; lia.
+  inv_done H; snd_fin 1%nat 23; do 4 eexists; snd_lim.
+Qed.
+
+(* ---- the frame-level statement: what is decoded comes from a frame whose fields are legal ----
+   [frame_within_limits off l]: the quantity / count / coil-value fields of the frame [l] (function
+   code at index [off]) are within the limits of MAP 6.x.  (Same text as the executable verdict
+   DispPacket.frame_fields_legal; Properties/C09.v checks that they are the same function.) *)
+Definition fld16 (l : list N) (off : nat) : N := nth off l 0 * 256 + nth (S off) l 0.
+Definition frame_within_limits (pdu_off : nat) (l : list N) : bool :=
+  let fc := nth pdu_off l 0 in
+  let q := fld16 l (pdu_off + 3) in
+  if (fc =? 1) || (fc =? 2) then (1 <=? q) && (q <=? 2000) else
+  if (fc =? 3) || (fc =? 4) then (1 <=? q) && (q <=? 125) else
+  if fc =? 5 then (q =? 0xFF00) || (q =? 0) else
+  if fc =? 15 then (1 <=? q) && (q <=? 1968) else
+  if fc =? 16 then (1 <=? q) && (q <=? 123) else
+  if fc =? 23 then (1 <=? q) && (q <=? 125) && (1 <=? fld16 l (pdu_off + 7)) && (fld16 l (pdu_off + 7) <=? 121) else
+  true.
+
+Lemma be16_skipn : forall off l, (off + 2 <= length l)%nat ->
+  be16 (firstn 2 (skipn off l)) = fld16 l off.
+Proof.
+  induction off as [|off IH]; intros l H.
+  - destruct l as [|a [|b l]]; cbn [length] in H; try lia. reflexivity.
+  - destruct l as [|a l]; cbn [length] in H; [lia|]. cbn [skipn]. rewrite IH by lia. reflexivity.
+Qed.
+Lemma fld_fld16 d off : (off + 2 <= slen d)%nat -> fld16 (vis d) off = fld d off.
+Proof. intros H. unfold fld. symmetry. apply be16_skipn. exact H. Qed.
+
+Ltac fwl Hfc :=
+  unfold frame_within_limits; rewrite (nth_error_nth _ _ 0 Hfc); cbn [Nat.add];
+  rewrite ?fld_fld16 by lia; cbn [N.eqb Pos.eqb orb].
+
+Ltac sound_open S :=
+  destruct S as [Hlen [Hfc S]];
+  repeat match goal with
+         | S : exists _, _ |- _ => destruct S as [? S]
+         | S : _ /\ _ |- _ => destruct S
+         end; subst.
+
+Lemma read_req_tcp_frame fc d tid r : 1 <= fc <= 4 -> parse_read_req_tcp fc d = Ok (tid, r) ->
+  frame_within_limits 7 (vis d) = true /\ req_in_limits r.
+Proof.
+  intros Hk H. pose proof (read_req_tcp_sound fc d tid r H) as S. sound_open S.
+  split; [|cbn [req_in_limits]; pose proof (read_limit_ge fc); lia].
+  fwl Hfc. destruct ((fc =? 1) || (fc =? 2)) eqn:E1; [lia|]. destruct ((fc =? 3) || (fc =? 4)) eqn:E2; lia.
+Qed.
+Lemma wcoil_req_tcp_frame d tid r : parse_wcoil_req_tcp d = Ok (tid, r) ->
+  frame_within_limits 7 (vis d) = true /\ req_in_limits r.
+Proof.
+  intros H. pose proof (wcoil_req_tcp_sound d tid r H) as S. sound_open S.
+  split; [|exact I]. fwl Hfc.
+  match goal with E : fld d 10 = (if ?c then _ else _) |- _ => rewrite E; destruct c; reflexivity end.
+Qed.
+Lemma wreg_req_tcp_frame d tid r : parse_wreg_req_tcp d = Ok (tid, r) ->
+  frame_within_limits 7 (vis d) = true /\ req_in_limits r.
+Proof.
+  intros H. pose proof (wreg_req_tcp_sound d tid r H) as S. sound_open S.
+  split; [|exact I]. fwl Hfc. reflexivity.
+Qed.
+Lemma wcoils_req_tcp_frame d tid r : parse_wcoils_req_tcp d = Ok (tid, r) ->
+  frame_within_limits 7 (vis d) = true /\ req_in_limits r.
+Proof.
+  intros H. pose proof (wcoils_req_tcp_sound d tid r H) as S. sound_open S.
+  split; [|cbn [req_in_limits]; lia]. fwl Hfc. lia.
+Qed.
+Lemma wregs_req_tcp_frame d tid r : parse_wregs_req_tcp d = Ok (tid, r) ->
+  frame_within_limits 7 (vis d) = true /\ req_in_limits r.
+Proof.
+  intros H. pose proof (wregs_req_tcp_sound d tid r H) as S. sound_open S.
+  split; [|cbn [req_in_limits]; lia]. fwl Hfc. lia.
+Qed.
+Lemma srvid_req_tcp_frame d tid r : parse_srvid_req_tcp d = Ok (tid, r) ->
+  frame_within_limits 7 (vis d) = true /\ req_in_limits r.
+Proof.
+  intros H. pose proof (srvid_req_tcp_sound d tid r H) as S. sound_open S.
+  split; [|exact I]. fwl Hfc. reflexivity.
+Qed.
+Lemma rw_req_tcp_frame d tid r : parse_rw_req_tcp d = Ok (tid, r) ->
+  frame_within_limits 7 (vis d) = true /\ req_in_limits r.
+Proof.
+  intros H. pose proof (rw_req_tcp_sound d tid r H) as S. sound_open S.
+  split; [|cbn [req_in_limits]; lia]. fwl Hfc. lia.
+Qed.
+
+Lemma read_req_rtu_frame fc d r : 1 <= fc <= 4 -> parse_read_req_rtu fc d = Ok r ->
+  frame_within_limits 1 (vis d) = true /\ req_in_limits r.
+Proof.
+  intros Hk H. pose proof (read_req_rtu_sound fc d r H) as S. sound_open S.
+  split; [|cbn [req_in_limits]; pose proof (read_limit_ge fc); lia].
+  fwl Hfc. destruct ((fc =? 1) || (fc =? 2)) eqn:E1; [lia|]. destruct ((fc =? 3) || (fc =? 4)) eqn:E2; lia.
+Qed.
+Lemma wcoil_req_rtu_frame d r : parse_wcoil_req_rtu d = Ok r ->
+  frame_within_limits 1 (vis d) = true /\ req_in_limits r.
+Proof.
+  intros H. pose proof (wcoil_req_rtu_sound d r H) as S. sound_open S.
+  split; [|exact I]. fwl Hfc.
+  match goal with E : fld d 4 = (if ?c then _ else _) |- _ => rewrite E; destruct c; reflexivity end.
+Qed.
+Lemma wreg_req_rtu_frame d r : parse_wreg_req_rtu d = Ok r ->
+  frame_within_limits 1 (vis d) = true /\ req_in_limits r.
+Proof.
+  intros H. pose proof (wreg_req_rtu_sound d r H) as S. sound_open S.
+  split; [|exact I]. fwl Hfc. reflexivity.
+Qed.
+Lemma wcoils_req_rtu_frame d r : parse_wcoils_req_rtu d = Ok r ->
+  frame_within_limits 1 (vis d) = true /\ req_in_limits r.
+Proof.
+  intros H. pose proof (wcoils_req_rtu_sound d r H) as S. sound_open S.
+  split; [|cbn [req_in_limits]; lia]. fwl Hfc. lia.
+Qed.
+Lemma wregs_req_rtu_frame d r : parse_wregs_req_rtu d = Ok r ->
+  frame_within_limits 1 (vis d) = true /\ req_in_limits r.
+Proof.
+  intros H. pose proof (wregs_req_rtu_sound d r H) as S. sound_open S.
+  split; [|cbn [req_in_limits]; lia]. fwl Hfc. lia.
+Qed.
+Lemma srvid_req_rtu_frame d r : parse_srvid_req_rtu d = Ok r ->
+  frame_within_limits 1 (vis d) = true /\ req_in_limits r.
+Proof.
+  intros H. pose proof (srvid_req_rtu_sound d r H) as S. sound_open S.
+  split; [|exact I]. fwl Hfc. reflexivity.
+Qed.
+Lemma rw_req_rtu_frame d r : parse_rw_req_rtu d = Ok r ->
+  frame_within_limits 1 (vis d) = true /\ req_in_limits r.
+Proof.
+  intros H. pose proof (rw_req_rtu_sound d r H) as S. sound_open S.
+  split; [|cbn [req_in_limits]; lia]. fwl Hfc. lia.
+Qed.
+
+(* ---- the dispatchers ---- *)
+Theorem tcp_dispatcher_sound d tid r : parse_tcp_request d = Ok (tid, r) ->
+  frame_within_limits 7 (vis d) = true /\ req_in_limits r.
+Proof.
+  unfold parse_tcp_request. intros H.
+  destruct (slen d <? 8)%nat eqn:E8; [discriminate H|].
+  destruct (@idx_lt perr d 7) as [fc [Hb Hn]]; [lia|]. rewrite Hb in H. cbn [bind] in H.
+  destruct ((fc =? 1) || (fc =? 2) || (fc =? 3) || (fc =? 4)) eqn:E1;
+    [apply (read_req_tcp_frame fc d tid r); [lia|exact H]|].
+  destruct (fc =? 5); [exact (wcoil_req_tcp_frame d tid r H)|].
+  destruct (fc =? 6); [exact (wreg_req_tcp_frame d tid r H)|].
+  destruct (fc =? 15); [exact (wcoils_req_tcp_frame d tid r H)|].
+  destruct (fc =? 16); [exact (wregs_req_tcp_frame d tid r H)|].
+  destruct (fc =? 17); [exact (srvid_req_tcp_frame d tid r H)|].
+  destruct (fc =? 23); [exact (rw_req_tcp_frame d tid r H)|discriminate H].
+Qed.
+
+Theorem rtu_dispatcher_sound d r : parse_rtu_request d = Ok r ->
+  frame_within_limits 1 (vis d) = true /\ req_in_limits r.
+Proof.
+  unfold parse_rtu_request. intros H.
+  destruct (slen d <? 4)%nat eqn:E4; [discriminate H|].
+  destruct (@idx_lt perr d 1) as [fc [Hb Hn]]; [lia|]. rewrite Hb in H. cbn [bind] in H.
+  destruct ((fc =? 1) || (fc =? 2) || (fc =? 3) || (fc =? 4)) eqn:E1;
+    [apply (read_req_rtu_frame fc d r); [lia|exact H]|].
+  destruct (fc =? 5); [exact (wcoil_req_rtu_frame d r H)|].
+  destruct (fc =? 6); [exact (wreg_req_rtu_frame d r H)|].
+  destruct (fc =? 15); [exact (wcoils_req_rtu_frame d r H)|].
+  destruct (fc =? 16); [exact (wregs_req_rtu_frame d r H)|].
+  destruct (fc =? 17); [exact (srvid_req_rtu_frame d r H)|].
+  destruct (fc =? 23); [exact (rw_req_rtu_frame d r H)|discriminate H].
+Qed.
+
+Theorem rtu_crc_dispatcher_sound d r : parse_rtu_request_crc d = Ok r ->
+  frame_within_limits 1 (vis d) = true /\ req_in_limits r.
+Proof.
+  unfold parse_rtu_request_crc, crc_gate. intros H.
+  destruct (slen d <? 4)%nat eqn:E4; [discriminate H|].
+  rewrite (@sub_in perr d (slen d - 2) (slen d)) in H by lia. cbn [bind] in H.
+  rewrite (@sub_in perr d 0 (slen d - 2)) in H by lia. cbn [bind] in H.
+  destruct (negb _) in H; [discriminate H|]. exact (rtu_dispatcher_sound d r H).
+Qed.
+
+(* ---- no request parser panics (needed for "refused": not Ok and not Panic is Err) ---- *)
+Ltac np_mbap :=
+  match goal with
+  | |- bind (parse_mbap ?d) _ <> Panic =>
+      let t := fresh "t" in let Hm := fresh "Hm" in let H7 := fresh "H7" in
+      destruct (parse_mbap d) as [t| |] eqn:Hm; cbn [bind];
+      [pose proof (mbap_ok d t Hm) as H7|discriminate|exfalso; exact (mbap_no_panic d Hm)]
+  end.
+
+Lemma read_req_tcp_np fc d : parse_read_req_tcp fc d <> Panic.
+Proof. unfold parse_read_req_tcp. np_mbap. repeat go_step; discriminate. Qed.
+Lemma wcoil_req_tcp_np d : parse_wcoil_req_tcp d <> Panic.
+Proof. unfold parse_wcoil_req_tcp. np_mbap. repeat go_step; discriminate. Qed.
+Lemma wreg_req_tcp_np d : parse_wreg_req_tcp d <> Panic.
+Proof. unfold parse_wreg_req_tcp. np_mbap. repeat go_step; discriminate. Qed.
+Lemma wcoils_req_tcp_np d : parse_wcoils_req_tcp d <> Panic.
+Proof. unfold parse_wcoils_req_tcp. np_mbap. repeat go_step; discriminate. Qed.
+Lemma wregs_req_tcp_np d : parse_wregs_req_tcp d <> Panic.
+Proof. unfold parse_wregs_req_tcp. np_mbap. repeat go_step; discriminate. Qed.
+Lemma srvid_req_tcp_np d : parse_srvid_req_tcp d <> Panic.
+Proof. unfold parse_srvid_req_tcp. np_mbap. repeat go_step; discriminate. Qed.
+Lemma rw_req_tcp_np d : parse_rw_req_tcp d <> Panic.
+Proof. unfold parse_rw_req_tcp. np_mbap. repeat go_step; discriminate. Qed.
+
+Lemma read_req_rtu_np fc d : parse_read_req_rtu fc d <> Panic.
+Proof. unfold parse_read_req_rtu. repeat go_step; discriminate. Qed.
+Lemma wcoil_req_rtu_np d : parse_wcoil_req_rtu d <> Panic.
+Proof. unfold parse_wcoil_req_rtu. repeat go_step; discriminate. Qed.
+Lemma wreg_req_rtu_np d : parse_wreg_req_rtu d <> Panic.
+Proof. unfold parse_wreg_req_rtu. repeat go_step; discriminate. Qed.
+Lemma wcoils_req_rtu_np d : parse_wcoils_req_rtu d <> Panic.
+Proof. unfold parse_wcoils_req_rtu. repeat go_step; discriminate. Qed.
+Lemma wregs_req_rtu_np d : parse_wregs_req_rtu d <> Panic.
+Proof. unfold parse_wregs_req_rtu. repeat go_step; discriminate. Qed.
+Lemma srvid_req_rtu_np d : parse_srvid_req_rtu d <> Panic.
+Proof. unfold parse_srvid_req_rtu. repeat go_step; discriminate. Qed.
+Lemma rw_req_rtu_np d : parse_rw_req_rtu d <> Panic.
+Proof. unfold parse_rw_req_rtu. repeat go_step; discriminate. Qed.
+
+Theorem tcp_dispatcher_np d : parse_tcp_request d <> Panic.
+Proof.
+  unfold parse_tcp_request. destruct (slen d <? 8)%nat eqn:E8; [discriminate|].
+  destruct (@idx_lt perr d 7) as [fc [Hb _]]; [lia|]. rewrite Hb. cbn [bind].
+  destruct (_ || _); [apply read_req_tcp_np|].
+  destruct (fc =? 5); [apply wcoil_req_tcp_np|].
+  destruct (fc =? 6); [apply wreg_req_tcp_np|].
+  destruct (fc =? 15); [apply wcoils_req_tcp_np|].
+  destruct (fc =? 16); [apply wregs_req_tcp_np|].
+  destruct (fc =? 17); [apply srvid_req_tcp_np|].
+  destruct (fc =? 23); [apply rw_req_tcp_np|discriminate].
+Qed.
+Theorem rtu_dispatcher_np d : parse_rtu_request d <> Panic.
+Proof.
+  unfold parse_rtu_request. destruct (slen d <? 4)%nat eqn:E4; [discriminate|].
+  destruct (@idx_lt perr d 1) as [fc [Hb _]]; [lia|]. rewrite Hb. cbn [bind].
+  destruct (_ || _); [apply read_req_rtu_np|].
+  destruct (fc =? 5); [apply wcoil_req_rtu_np|].
+  destruct (fc =? 6); [apply wreg_req_rtu_np|].
+  destruct (fc =? 15); [apply wcoils_req_rtu_np|].
+  destruct (fc =? 16); [apply wregs_req_rtu_np|].
+  destruct (fc =? 17); [apply srvid_req_rtu_np|].
+  destruct (fc =? 23); [apply rw_req_rtu_np|discriminate].
+Qed.
+Theorem rtu_crc_dispatcher_np d : parse_rtu_request_crc d <> Panic.
+Proof.
+  unfold parse_rtu_request_crc, crc_gate. destruct (slen d <? 4)%nat eqn:E4; [discriminate|].
+  rewrite (@sub_in perr d (slen d - 2) (slen d)) by lia. cbn [bind].
+  rewrite (@sub_in perr d 0 (slen d - 2)) by lia. cbn [bind].
+  destruct (negb _); [discriminate|apply rtu_dispatcher_np].
+Qed.
+
+(* ---- refusal: a frame whose field is outside the limits gets an error from every entry point ---- *)
+Lemma refused {A} (x : pres A) : x <> Panic -> (forall a, x <> Ok a) -> exists e, x = Err e.
+Proof.
+  intros Hp Ho. destruct x as [a|e|]; [exfalso; exact (Ho a eq_refl)|eexists; reflexivity|contradiction].
+Qed.
+
+Theorem tcp_dispatcher_refuses d :
+  frame_within_limits 7 (vis d) = false -> exists e, parse_tcp_request d = Err e.
+Proof.
+  intros Hf. apply refused; [apply tcp_dispatcher_np|]. intros [tid r] H.
+  destruct (tcp_dispatcher_sound d tid r H) as [T _]. rewrite T in Hf. discriminate Hf.
+Qed.
+Theorem rtu_dispatcher_refuses d :
+  frame_within_limits 1 (vis d) = false ->
+  (exists e, parse_rtu_request d = Err e) /\ (exists e, parse_rtu_request_crc d = Err e).
+Proof.
+  intros Hf. split; (apply refused; [first [apply rtu_dispatcher_np|apply rtu_crc_dispatcher_np]|]); intros r H.
+  - destruct (rtu_dispatcher_sound d r H) as [T _]. rewrite T in Hf. discriminate Hf.
+  - destruct (rtu_crc_dispatcher_sound d r H) as [T _]. rewrite T in Hf. discriminate Hf.
+Qed.
+
+(* the per-function parsers, all fourteen at once: selected by the number the harness uses *)
+Inductive req_parser : Type :=
+| PReadTCP (fc : N) | PWCoilTCP | PWRegTCP | PWCoilsTCP | PWRegsTCP | PSrvIdTCP | PRWTCP
+| PReadRTU (fc : N) | PWCoilRTU | PWRegRTU | PWCoilsRTU | PWRegsRTU | PSrvIdRTU | PRWRTU.
+Definition pdu_offset (p : req_parser) : nat :=
+  match p with
+  | PReadTCP _ | PWCoilTCP | PWRegTCP | PWCoilsTCP | PWRegsTCP | PSrvIdTCP | PRWTCP => 7%nat
+  | _ => 1%nat
+  end.
+Definition run_req_parser (p : req_parser) (d : slice) : pres req :=
+  match p with
+  | PReadTCP fc => map_ok snd (parse_read_req_tcp fc d)
+  | PWCoilTCP => map_ok snd (parse_wcoil_req_tcp d)
+  | PWRegTCP => map_ok snd (parse_wreg_req_tcp d)
+  | PWCoilsTCP => map_ok snd (parse_wcoils_req_tcp d)
+  | PWRegsTCP => map_ok snd (parse_wregs_req_tcp d)
+  | PSrvIdTCP => map_ok snd (parse_srvid_req_tcp d)
+  | PRWTCP => map_ok snd (parse_rw_req_tcp d)
+  | PReadRTU fc => parse_read_req_rtu fc d
+  | PWCoilRTU => parse_wcoil_req_rtu d
+  | PWRegRTU => parse_wreg_req_rtu d
+  | PWCoilsRTU => parse_wcoils_req_rtu d
+  | PWRegsRTU => parse_wregs_req_rtu d
+  | PSrvIdRTU => parse_srvid_req_rtu d
+  | PRWRTU => parse_rw_req_rtu d
+  end.
+Definition req_parser_wf (p : req_parser) : Prop :=
+  match p with PReadTCP fc | PReadRTU fc => 1 <= fc <= 4 | _ => True end.
+
+Lemma map_ok_snd_inv {A B} (x : pres (A * B)) b : map_ok snd x = Ok b -> exists a, x = Ok (a, b).
+Proof. destruct x as [[a b']| |]; cbn; intros H; try discriminate H. apply Ok_inj in H. subst. eexists; reflexivity. Qed.
+Lemma map_ok_np {A B} (f : A -> B) (x : pres A) : x <> Panic -> map_ok f x <> Panic.
+Proof. destruct x; cbn; intros H; try discriminate; contradiction. Qed.
+
+Theorem per_function_sound p d r : req_parser_wf p -> run_req_parser p d = Ok r ->
+  frame_within_limits (pdu_offset p) (vis d) = true /\ req_in_limits r.
+Proof.
+  intros Hw H. destruct p; cbn [run_req_parser pdu_offset req_parser_wf] in *;
+    try (apply map_ok_snd_inv in H; destruct H as [tid H]).
+  - exact (read_req_tcp_frame fc d tid r Hw H).
+  - exact (wcoil_req_tcp_frame d tid r H).
+  - exact (wreg_req_tcp_frame d tid r H).
+  - exact (wcoils_req_tcp_frame d tid r H).
+  - exact (wregs_req_tcp_frame d tid r H).
+  - exact (srvid_req_tcp_frame d tid r H).
+  - exact (rw_req_tcp_frame d tid r H).
+  - exact (read_req_rtu_frame fc d r Hw H).
+  - exact (wcoil_req_rtu_frame d r H).
+  - exact (wreg_req_rtu_frame d r H).
+  - exact (wcoils_req_rtu_frame d r H).
+  - exact (wregs_req_rtu_frame d r H).
+  - exact (srvid_req_rtu_frame d r H).
+  - exact (rw_req_rtu_frame d r H).
+Qed.
+
+Theorem per_function_np p d : run_req_parser p d <> Panic.
+Proof.
+  destruct p; cbn [run_req_parser]; try apply map_ok_np;
+    first [apply read_req_tcp_np|apply wcoil_req_tcp_np|apply wreg_req_tcp_np|apply wcoils_req_tcp_np
+          |apply wregs_req_tcp_np|apply srvid_req_tcp_np|apply rw_req_tcp_np
+          |apply read_req_rtu_np|apply wcoil_req_rtu_np|apply wreg_req_rtu_np|apply wcoils_req_rtu_np
+          |apply wregs_req_rtu_np|apply srvid_req_rtu_np|apply rw_req_rtu_np].
+Qed.
+
+Theorem per_function_refuses p d : req_parser_wf p ->
+  frame_within_limits (pdu_offset p) (vis d) = false -> exists e, run_req_parser p d = Err e.
+Proof.
+  intros Hw Hf. apply refused; [apply per_function_np|]. intros r H.
+  destruct (per_function_sound p d r Hw H) as [T _]. rewrite T in Hf. discriminate Hf.
+Qed.
+
+(* the decoded quantity / count / coil value IS the frame's field (so "within limits" above is a
+   statement about the frame that was received, not only about the value handed to the caller) *)
+Definition decoded_from_frame (off : nat) (d : slice) (r : req) : Prop :=
+  match r with
+  | RRead _ _ _ q => q = fld d (off + 3)
+  | RWCoil _ _ st => fld d (off + 3) = (if st then 0xFF00 else 0)
+  | RWCoils _ _ c _ | RWRegs _ _ c _ => c = fld d (off + 3)
+  | RRW _ _ rq _ wq _ => rq = fld d (off + 3) /\ wq = fld d (off + 7)
+  | _ => True
+  end.
+
+Theorem per_function_fields p d r : run_req_parser p d = Ok r ->
+  decoded_from_frame (pdu_offset p) d r.
+Proof.
+  intros H. destruct p; cbn [run_req_parser pdu_offset] in *;
+    try (apply map_ok_snd_inv in H; destruct H as [tid H]).
+  - pose proof (read_req_tcp_sound _ _ _ _ H) as S. sound_open S. reflexivity.
+  - pose proof (wcoil_req_tcp_sound _ _ _ H) as S. sound_open S. assumption.
+  - pose proof (wreg_req_tcp_sound _ _ _ H) as S. sound_open S. exact I.
+  - pose proof (wcoils_req_tcp_sound _ _ _ H) as S. sound_open S. reflexivity.
+  - pose proof (wregs_req_tcp_sound _ _ _ H) as S. sound_open S. reflexivity.
+  - pose proof (srvid_req_tcp_sound _ _ _ H) as S. sound_open S. exact I.
+  - pose proof (rw_req_tcp_sound _ _ _ H) as S. sound_open S. split; reflexivity.
+  - pose proof (read_req_rtu_sound _ _ _ H) as S. sound_open S. reflexivity.
+  - pose proof (wcoil_req_rtu_sound _ _ H) as S. sound_open S. assumption.
+  - pose proof (wreg_req_rtu_sound _ _ H) as S. sound_open S. exact I.
+  - pose proof (wcoils_req_rtu_sound _ _ H) as S. sound_open S. reflexivity.
+  - pose proof (wregs_req_rtu_sound _ _ H) as S. sound_open S. reflexivity.
+  - pose proof (srvid_req_rtu_sound _ _ H) as S. sound_open S. exact I.
+  - pose proof (rw_req_rtu_sound _ _ H) as S. sound_open S. split; reflexivity.
 Qed.
